@@ -120,3 +120,185 @@ def sabotage(trace, rng):
         t = t[rng.choice(["lo", "hi"])]
     t["cnt"][0] += 1
     return trace, k + 1, "count"
+
+
+# ======================================================================= detectors (C09)
+def bracket(ref, ub, lb, sample_size, alpha, n_impl, seed, B=1500):
+    """Independent estimate of the documented critical value: the (1 - alpha) quantile of the KL divergence
+    between two samples of `sample_size` drawn from the reference leaf distribution; returned as the
+    interval between the quantile levels that the implementation's own n_impl-sample order statistic can
+    reach with probability 1 - 2e-9 (exact Beta bounds), widened by 6 sigma of this estimate."""
+    from menelaus.partitioners import KDQTreePartitioner
+    part = KDQTreePartitioner(count_ubound=ub, cutpoint_proportion_lbound=lb)
+    part.build(np.array(ref, dtype=float))
+    counts = np.array(part.leaf_counts("build"), dtype=float)
+    L = len(counts)
+    p = (counts + 0.5) / (counts.sum() + L / 2)
+    p = p / p.sum()
+    rs = np.random.RandomState(seed)
+    a = rs.multinomial(sample_size, p, size=B).astype(float)
+    b = rs.multinomial(sample_size, p, size=B).astype(float)
+    pa = (a + 0.5) / (sample_size + L / 2)
+    pb = (b + 0.5) / (sample_size + L / 2)
+    kl = np.sort((pa * np.log(pa / pb)).sum(axis=1))
+    # the implementation reports the order statistic X_(k) of its n_impl bootstrap values (numpy "nearest");
+    # its level F(X_(k)) is Beta(k, n-k+1) distributed: exact 1e-9 bounds, widened by 6 sigma of this estimate
+    import scipy.stats
+    q = 1 - alpha
+    k = int(np.round((n_impl - 1) * q)) + 1
+    u_lo = float(scipy.stats.beta.ppf(1e-9, k, n_impl - k + 1))
+    u_hi = float(scipy.stats.beta.ppf(1 - 1e-9, k, n_impl - k + 1))
+    lo_level = max(0.0, u_lo - 6 * np.sqrt(u_lo * (1 - u_lo) / B))
+    hi_level = u_hi + 6 * np.sqrt(max(u_hi * (1 - u_hi), 1.0 / B) / B)
+    lo = float(np.quantile(kl, lo_level)) * (1 - 1e-9)
+    hi = float("inf") if hi_level >= 1 - 1.0 / B else float(np.quantile(kl, hi_level)) * (1 + 1e-9)
+    return lo, hi
+
+
+def _crit(det):
+    try:
+        v = det._critical_dist
+        return num(float(v)) if v is not None else "None"
+    except Exception:  # noqa
+        return "NA"
+
+
+def _dist(det):
+    try:
+        v = det._test_dist
+        return num(float(v)) if v is not None else "NA"
+    except Exception:  # noqa
+        return "NA"
+
+
+def run_stream(p, xs, resets=(), seed=0):
+    """p: window_size, persistence, alpha, bootstrap_samples, count_ubound, lbnum, lbden; xs: list of integer points"""
+    from menelaus.data_drift import KdqTreeStreaming
+    lb = p["lbnum"] / p["lbden"]
+    det = KdqTreeStreaming(window_size=p["window_size"], persistence=p["persistence"], alpha=p["alpha"],
+                           bootstrap_samples=p["bootstrap_samples"], count_ubound=p["count_ubound"],
+                           cutpoint_proportion_lbound=lb)
+    ev = []
+    epoch = []       # samples of the current epoch while the reference window is being collected
+    have_ref = False
+    none = {"crit": "None", "lo": "None", "hi": "None"}
+    for t, x in enumerate(xs):
+        if t in resets:
+            det.reset()
+            epoch, have_ref = [], False
+            ev.append({"op": "reset", "total": int(det.total_samples), "since": int(det.samples_since_reset),
+                       "state": st(det.drift_state), "dist": "NA", "c": dict(none)})
+        if det.drift_state == "drift":
+            epoch, have_ref = [], False
+        np.random.seed((seed * 7919 + t) % (2 ** 32))
+        det.update(np.array([x], dtype=float))
+        c = {"crit": _crit(det), "lo": "None", "hi": "None"}
+        if not have_ref:
+            epoch.append(x)
+            if len(epoch) == p["window_size"]:
+                lo, hi = bracket(epoch, p["count_ubound"], lb, p["window_size"], p["alpha"], p["bootstrap_samples"], seed + t)
+                c["lo"], c["hi"] = num(lo), num(hi)
+                have_ref = True
+        ev.append({"op": "update", "x": list(x), "total": int(det.total_samples), "since": int(det.samples_since_reset),
+                   "state": st(det.drift_state), "dist": _dist(det), "c": c})
+    cfg = {"kind": "stream", "W": p["window_size"], "pers": num(p["persistence"]), "ub": p["count_ubound"],
+           "lbnum": p["lbnum"], "lbden": p["lbden"]}
+    return {"cfg": cfg, "ev": ev, "params": p, "xs": [list(x) for x in xs], "resets": list(resets), "seed": seed}
+
+
+def run_batch(p, batches, setrefs=(), first_is_reference=True, seed=0):
+    """batches: list of lists of integer points; setrefs: positions at which the batch is given to set_reference"""
+    from menelaus.data_drift import KdqTreeBatch
+    lb = p["lbnum"] / p["lbden"]
+    det = KdqTreeBatch(alpha=p["alpha"], bootstrap_samples=p["bootstrap_samples"], count_ubound=p["count_ubound"],
+                       cutpoint_proportion_lbound=lb)
+    ev = []
+    prev = None
+    none = {"crit": "None", "lo": "None", "hi": "None"}
+
+    def br(ref, s):
+        lo, hi = bracket(ref, p["count_ubound"], lb, len(ref), p["alpha"], p["bootstrap_samples"], s)
+        return num(lo), num(hi)
+
+    for t, b in enumerate(batches):
+        np.random.seed((seed * 7919 + t) % (2 ** 32))
+        X = np.array(b, dtype=float)
+        if t in setrefs or (t == 0 and first_is_reference):
+            det.set_reference(X)
+            lo, hi = br(b, seed + t)
+            ev.append({"op": "set_reference", "data": b, "total": int(det.total_batches), "since": int(det.batches_since_reset),
+                       "state": st(det.drift_state), "dist": "NA", "c": {"crit": _crit(det), "lo": lo, "hi": hi},
+                       "c0": dict(none)})
+            prev = None
+            continue
+        was_drift = det.drift_state == "drift"
+        no_tree = len(ev) == 0
+        det.update(X)
+        c0 = dict(none)
+        if was_drift:
+            lo, hi = br(prev, seed + t)
+            # the re-built reference's critical value is only visible if this batch did not drift again... it always is:
+            c0 = {"crit": _crit(det), "lo": lo, "hi": hi}
+        elif no_tree:
+            lo, hi = br(b, seed + t)
+            c0 = {"crit": _crit(det), "lo": lo, "hi": hi}
+        ev.append({"op": "update", "data": b, "total": int(det.total_batches), "since": int(det.batches_since_reset),
+                   "state": st(det.drift_state), "dist": _dist(det) if not no_tree else "NA",
+                   "c": {"crit": _crit(det), "lo": "None", "hi": "None"}, "c0": c0})
+        prev = b
+    cfg = {"kind": "batch", "W": 0, "pers": "0.0", "ub": p["count_ubound"], "lbnum": p["lbnum"], "lbden": p["lbden"]}
+    return {"cfg": cfg, "ev": ev, "params": p, "batches": batches, "setrefs": list(setrefs),
+            "first_is_reference": first_is_reference, "seed": seed}
+
+
+def bursty_stream(rng, n, d, w):
+    """integer points alternating between a home region and far bursts of varying length, so that the
+    accumulated divergence crosses the critical value repeatedly in both directions"""
+    out = []
+    home = [rng.randint(0, 10) for _ in range(d)]
+    while len(out) < n:
+        for _ in range(rng.randint(w, 3 * w)):
+            out.append([h + rng.randint(-4, 4) for h in home])
+        far = [h + rng.choice([-1, 1]) * rng.randint(15, 60) for h in home]
+        for _ in range(rng.randint(1, max(2, w))):
+            out.append([f + rng.randint(-4, 4) for f in far])
+        if rng.random() < 0.3:
+            home = far
+    return out[:n]
+
+
+def stream_params(rng):
+    w = rng.choice([5, 8, 12, 20])
+    return {"window_size": w, "persistence": rng.choice([0.0, 0.05, 0.2, 0.5, 1.0]), "alpha": rng.choice([0.01, 0.05, 0.2]),
+            "bootstrap_samples": rng.choice([30, 60]), "count_ubound": rng.choice([1, 2, 4]),
+            "lbnum": rng.choice([0, 1]), "lbden": rng.choice([4, 8])}
+
+
+def batch_params(rng):
+    return {"alpha": rng.choice([0.01, 0.05, 0.2]), "bootstrap_samples": rng.choice([30, 60]),
+            "count_ubound": rng.choice([2, 4, 8]), "lbnum": rng.choice([0, 1]), "lbden": rng.choice([4, 8])}
+
+
+def batch_sequence(rng, n, d):
+    out = []
+    home = [rng.randint(0, 10) for _ in range(d)]
+    spread = rng.randint(3, 8)
+    for _ in range(n):
+        if rng.random() < 0.35:
+            home = [h + rng.choice([-1, 1]) * rng.randint(5, 40) for h in home]
+            spread = rng.randint(2, 12)
+        m = rng.randint(12, 40)
+        out.append([[h + rng.randint(-spread, spread) for h in home] for _ in range(m)])
+    return out
+
+
+def det_sabotage(trace, rng):
+    ks = [k for k, e in enumerate(trace["ev"]) if e["op"] == "update"]
+    k = rng.choice(ks)
+    e = trace["ev"][k]
+    w = rng.choice(["state", "since", "total"])
+    if w == "state":
+        e["state"] = "drift" if e["state"] == "None" else "None"
+    else:
+        e[w] += 1
+    return trace, k + 1, w
